@@ -238,9 +238,11 @@ type sysGB struct {
 	Serial  *bytes.Buffer
 	Window  *glfw.Window
 	Stream  *portaudio.Stream
-	samples []float32
-	done    chan struct{}
-	path    string
+	samples  []float32
+	done     chan struct{}
+	stop     chan struct{}
+	unclosed bool
+	path     string
 }
 
 func sysNewGB(rom []byte, video, withAudio bool, w io.Writer) (g *sysGB, err error) {
@@ -271,22 +273,43 @@ func sysNewGB(rom []byte, video, withAudio bool, w io.Writer) (g *sysGB, err err
 
 // consume starts the harness's audio consumer: it takes left and right
 // samples alternately straight from the speaker channels (as the PortAudio
-// callback would) until they are closed, so the sample list is exact.
+// callback would) until they are closed, so the sample list is exact. Once
+// told to stop (finish) it only drains what is already buffered; if the
+// channels turn out not to be closed it records that instead of waiting.
 func (g *sysGB) consume() {
 	sp := g.G.VerifSpeakers()
 	if sp == nil {
 		return
 	}
 	g.done = make(chan struct{})
+	g.stop = make(chan struct{})
 	l, r := sp.Left(), sp.Right()
 	go func() {
 		defer close(g.done)
+		stopping := false
+		next := func(ch chan float32) (float32, bool) {
+			if !stopping {
+				select {
+				case v, ok := <-ch:
+					return v, ok
+				case <-g.stop:
+					stopping = true
+				}
+			}
+			select {
+			case v, ok := <-ch:
+				return v, ok
+			default:
+				g.unclosed = true // the emulator has stopped, nothing is buffered, and the channel is still open
+				return 0, false
+			}
+		}
 		for {
-			a, ok := <-l
+			a, ok := next(l)
 			if !ok {
 				return
 			}
-			b, ok := <-r
+			b, ok := next(r)
 			if !ok {
 				return
 			}
@@ -295,10 +318,12 @@ func (g *sysGB) consume() {
 	}()
 }
 
-// finish releases the instance and returns every sample it produced.
+// finish releases the instance and returns every sample it produced. It never
+// blocks: g.unclosed tells whether Cleanup left the speaker channels open.
 func (g *sysGB) finish() []float32 {
 	g.G.Cleanup()
 	if g.done != nil {
+		close(g.stop)
 		<-g.done
 	}
 	os.Remove(g.path)
